@@ -8,10 +8,17 @@ from .. import tlc
 from . import stub
 
 
+def _isint(x):
+    """an integer of any kind (Python or numpy), but not a bool"""
+    import numbers
+    return isinstance(x, numbers.Integral) and not isinstance(x, bool)
+
+
+
 def _proj(G):
     from gcmpy import NetworkNames as NN
     nodes = list(G.nodes())
-    return {"nodes": [int(n) if isinstance(n, int) else -1 for n in nodes],
+    return {"nodes": [int(n) if _isint(n) else -1 for n in nodes],
             "jd": [[int(x) for x in G.nodes[n][NN.JOINT_DEGREE]] if NN.JOINT_DEGREE in G.nodes[n] else [-1] for n in nodes],
             "edges": [{"a": int(a), "b": int(b), "top": str(G.edges[a, b].get(NN.TOPOLOGY, "?")),
                        "mid": int(G.edges[a, b].get(NN.MOTIF_IDS, -1))} for a, b in G.edges()]}
